@@ -2,7 +2,7 @@
    debris.  Statements only.  FsUpdate.v: the operation sequence of update_test_file (temp file
    created at start / BeginInclude, one append per record, the trimmer's truncations, rename at
    EndInclude / end); a crash is a prefix of that sequence (POSIX rename assumed atomic). *)
-From SLT Require Import FsTrim FsUpdate FsProofs.
+From SLT Require Import FsTrim FsUpdate FsProofs IncludeSpec Runner Update UpdateFile1 UpdateFile3 UpdateFs.
 
 (* after EVERY prefix of the operations every file being rewritten holds its old or its complete new content *)
 Theorem C08_atomic :
@@ -66,3 +66,51 @@ Print Assumptions C08_trim_small_refuted.
 Theorem C08_trim_fix_conservative : forall f b, trim_tail_v0 f = TOk b -> trim_tail f = TOk b.
 Proof. exact trim_tail_v0_agrees. Qed.
 Print Assumptions C08_trim_fix_conservative.
+
+(* ---- the same three statements for the operation sequence the UPDATER MODEL (Update.update_loop, the model the
+   correspondence runs against update_test_file) actually performs: [wevs_of] instruments that loop, and
+   [closed_of (wevs_of ...) [] = written] (UpdateFs.update_loop_closed_of).  The file tree must name every file once
+   (NoDup: UpdateFs.Twice.double_include_second_wins shows what happens otherwise) and temp names must be fresh. *)
+
+(* after EVERY prefix of the updater's operations, in update and in format mode, every file of the tree holds its old
+   content or exactly the bytes the updater reports for it *)
+Theorem C08_updater_atomic :
+  forall re sep strict substitute sc format_only main rs st w written ev kn tmp fs0 k f,
+    update_loop re sep strict substitute sc format_only rs [mkItem main []] false st w [] [] [] = UOk written ev kn ->
+    NoDup (main :: included_files rs) -> fresh tmp (main :: included_files rs) ->
+    In f (main :: included_files rs) ->
+    let fsk := run_ops fs0 (firstn k (ops_of tmp (wevs_of re sep strict substitute sc format_only main rs st w) [])) in
+    fsk f = fs0 f \/ (exists c, assoc_bytes f written = Some c /\ In (f, c) written /\ fsk f = Some c).
+Proof. exact update_atomic. Qed.
+Print Assumptions C08_updater_atomic.
+
+(* on completion every file of the tree holds its new bytes, nothing else was written, no temp file remains *)
+Theorem C08_updater_final :
+  forall re sep strict substitute sc format_only main rs st w written ev kn tmp fs0,
+    update_loop re sep strict substitute sc format_only rs [mkItem main []] false st w [] [] [] = UOk written ev kn ->
+    nested [] rs = true ->
+    NoDup (main :: included_files rs) -> fresh tmp (main :: included_files rs) ->
+    let fsn := run_ops fs0 (ops_of tmp (wevs_of re sep strict substitute sc format_only main rs st w) []) in
+    (forall f, In f (main :: included_files rs) ->
+       (exists c, assoc_bytes f written = Some c /\ In (f, c) written /\ fsn f = Some c) /\ fsn (tmp f) = None) /\
+    (forall f c, In (f, c) written ->
+       In f (main :: included_files rs) /\ fsn f = Some c /\ fsn (tmp f) = None).
+Proof. exact update_final. Qed.
+Print Assumptions C08_updater_final.
+
+(* each included file receives exactly its own records: the bytes on disk are the trimmed text of that file's records *)
+Theorem C08_updater_ownership :
+  forall re sep strict substitute sc main rs st w written ev kn tmp fs0,
+    update_loop re sep strict substitute sc false rs [mkItem main []] false st w [] [] [] = UOk written ev kn ->
+    nested [] rs = true ->
+    NoDup (main :: included_files rs) -> fresh tmp (main :: included_files rs) ->
+    let fsn := run_ops fs0 (ops_of tmp (wevs_of re sep strict substitute sc false main rs st w) []) in
+    exists owned,
+      split_files (updated_records re sep strict substitute sc rs st w) [(main, [])] [] = Some owned /\
+      Forall2 (fun (p : str * list record) (d : str * list N) =>
+                 fst d = fst p /\
+                 trim_tail (utf8 (recs_text (snd p))) = TOk (snd d) /\
+                 fsn (fst p) = Some (snd d) /\ fsn (tmp (fst p)) = None) owned written /\
+      Forall (fun p : str * list record => Forall plain (snd p)) owned.
+Proof. exact update_file_ownership. Qed.
+Print Assumptions C08_updater_ownership.
